@@ -184,3 +184,76 @@ def crosscheck_regex():
             if m is None or m.groups() != (v, p):
                 return n, 'model says groups (%r, %r), CPython says %r' % (v, p, m.groups() if m else None)
     return n, None
+
+
+# ---------------------------------------------------------------------------------------------------- compatibility ranges
+NATIVE_COMPAT = r'''
+import json, sys, re, itertools
+sys.path.insert(0, %(native)r)
+import harness as H
+from ssh_audit.ssh2_kexdb import SSH2_KexDB
+DB = SSH2_KexDB.MASTER_DB
+def vt(v):
+    return tuple(int(x) for x in v.split('.'))
+def since(entry, prefix):
+    """first-appeared server-side version of one product ('' OpenSSH, 'd' Dropbear), for entries that list appearance only"""
+    vs = entry[0]
+    if len(vs) != 1 or vs[0] is None:
+        return 'skip'
+    out = None
+    for it in vs[0].split(','):
+        if it.endswith('C'):
+            continue
+        if prefix == '' and it[:1].isdigit():
+            out = it
+        elif prefix == 'd' and it.startswith('d'):
+            out = it[1:]
+    return out
+cases, failures = 0, []
+per = {}
+def fail(inp, got, want, cls):
+    per[cls] = per.get(cls, 0) + 1
+    if per[cls] <= 3:
+        failures.append({'input': dict(inp, **{'class': cls}), 'got': got, 'want': want})
+# (a) ground: wherever the tool orders first-appeared versions of one product as strings (Timeframe), string order agrees with numeric order on the current tables
+for prefix, prod in (('', 'OpenSSH'), ('d', 'Dropbear SSH')):
+    vs = set()
+    for cat in DB:
+        for n, e in DB[cat].items():
+            for cell in e[0]:
+                for it in (cell or '').split(','):
+                    it = it[:-1] if it.endswith('C') else it
+                    if prefix == '' and it[:1].isdigit(): vs.add(it)
+                    if prefix == 'd' and it.startswith('d'): vs.add(it[1:])
+    for a, b in itertools.combinations(sorted(vs), 2):
+        cases += 1
+        if (a < b) != (vt(a) < vt(b)):
+            fail({'product': prod, 'versions': [a, b]}, 'string order differs from numeric order', 'the same order (Timeframe compares these as strings)', 'table-version-order')
+# (b) a server offering two algorithms is compatible from the numerically later of their first-appeared versions
+simple = {}
+for cat in ('kex', 'enc', 'mac'):
+    for n, e in DB[cat].items():
+        if n.endswith('-*') or (len(e) > 1 and False):
+            continue
+        so, sd = since(e, ''), since(e, 'd')
+        if so not in ('skip', None):
+            simple.setdefault(cat, []).append((n, so, sd if sd != 'skip' else None))
+base = dict(kex=['curve25519-sha256'], key=['ssh-ed25519'], enc=['aes128-ctr'], mac=['hmac-sha2-256'])
+import random
+r = random.Random(14)
+for cat in simple:
+    names = simple[cat]
+    pairs = [(names[i], names[j]) for i in range(len(names)) for j in range(i + 1, len(names))]
+    r.shuffle(pairs)
+    for (a, va, da), (b, vb, db_) in pairs[:40]:
+        cases += 1
+        p = dict(base); p[cat] = [a, b]
+        kex = H.make_kex(p['kex'], p['key'], p['enc'], p['mac'])
+        st, text = H.run_output(kex=kex, banner='SSH-2.0-OpenSSH_9.9')
+        line = [l for l in text.split('\n') if l.startswith('(gen) compatibility:')]
+        want = max([va, vb] + [since(DB[c][p[c][0]], '') for c in ('kex', 'key', 'enc', 'mac') if c != cat], key=vt)
+        m = re.search(r'OpenSSH (\d[\d.]*)', line[0]) if line else None
+        if not m or m.group(1) != want:
+            fail({'category': cat, 'algorithms': [a, b], 'first appeared': [va, vb]}, line[:1], 'compatibility from OpenSSH %%s (the numerically latest first-appeared version)' %% want, 'compat-from')
+print(json.dumps({'cases': cases, 'failures': failures}))
+'''
